@@ -23,7 +23,7 @@ def hostile_alphabet(box):
     return ["..", ".", "", outside, outside + "/x", "a/../../b", "../" * 3 + "up", "../../..",
             "../" * 12 + "deep", "ok", "sub", "a/b", "/", "..//..", "./../x", "ok/..", "…",
             "../dest2", "../dest.bak", "../destX/y", "../../y/dest", "//" + box.lstrip("/"),
-            "..", "../dest", "..\\..\\created", "x\\..\\..\\..\\victim", "..\\byname", "\\", "..\\"]
+            "..", "../dest", "../dest", "../dest", "../dest", "..\\..\\created", "x\\..\\..\\..\\victim", "..\\byname", "\\", "..\\"]
 
 
 def gen_meta(rng, box):
@@ -78,6 +78,13 @@ def run_case(run, drv, case_seed):
         dest = os.path.join(base, dname)
         os.makedirs(dest)
         os.makedirs(os.path.join(box, "outside"))
+        linked = rng.random() < 0.2
+        if linked:
+            # the destination is reached through a symbolic link with a RELATIVE target, and the
+            # working directory is somewhere else: everything still lands in the real directory
+            os.makedirs(os.path.join(base, "store"), exist_ok=True)
+            os.rename(dest, os.path.join(base, "store", "real-" + dname))
+            os.symlink(os.path.join("store", "real-" + dname), dest)
         raw = refspec.encode(meta)
         mpath = os.path.join(base, "h.torrent")
         with open(mpath, "wb") as fd:
@@ -106,7 +113,7 @@ def run_case(run, drv, case_seed):
                     except OSError:
                         pass
         case = {"case_seed": case_seed, "version": version, "single": single, "name": name,
-                "paths": [list(c) for c, _ in files]}
+                "paths": [list(c) for c, _ in files], "dest_is_relative_link": linked}
         raised = None
         relative = rng.random() < 0.3
         old_cwd = os.getcwd()
@@ -133,18 +140,25 @@ def run_case(run, drv, case_seed):
                 run.fail("impl-vs-spec", dict(case_stub(case_seed, version, single, name, files), relative="first"),
                          {"why": "attempted to write outside the destination",
                           "operation": [str(x) for x in tr0.escapes[0]]})
-        before = {k: v for k, v in snapshot(box).items()
-                  if not (os.path.join(box, k) + os.sep).startswith(dest + os.sep)}
+        realdest = os.path.realpath(dest)
+        inside = lambda k: (os.path.join(box, k) + os.sep).startswith(dest + os.sep) or \
+            (os.path.join(box, k) + os.sep).startswith(realdest + os.sep)
+        before = {k: v for k, v in snapshot(box).items() if not inside(k)}
+        via_cli = rng.random() < 0.3
         try:
-            with effects.traced(fence=[dest]) as tr:
+            with effects.traced(fence=[dest, realdest]) as tr:
                 try:
-                    impl.rebuild([mpath], [search], dname if relative else dest)
-                except Exception as exc:
+                    if via_cli:     # the command-line entry point (commands.rebuild)
+                        impl.cli(["rebuild", "-m", mpath, "-c", search, "-d", dname if relative else dest])
+                    else:
+                        impl.rebuild([mpath], [search], dname if relative else dest)
+                except effects.Escape:
+                    raised = "Escape"
+                except BaseException as exc:  # noqa
                     raised = type(exc).__name__
         finally:
             os.chdir(old_cwd)
-        after = {k: v for k, v in snapshot(box).items()
-                 if not (os.path.join(box, k) + os.sep).startswith(dest + os.sep)}
+        after = {k: v for k, v in snapshot(box).items() if not inside(k)}
         if tr.escapes:
             run.fail("impl-vs-spec", case, {"why": "attempted to write outside the destination",
                                             "operation": [str(x) for x in tr.escapes[0]]})
